@@ -175,7 +175,8 @@ class Taint:
             kind = None
             if isinstance(s, (ast.Continue, ast.Break)):
                 kind = type(s).__name__.lower()
-            elif isinstance(s, ast.Return) and self._in_loop(s):
+            elif isinstance(s, ast.Return) and (self._in_loop(s) or not self.allow):
+                # graph.py (allow=False): an ANSWER returned under a timestamp test depends on the clock, loop or no loop
                 kind = "return"
             elif isinstance(s, ast.Expr) and isinstance(s.value, ast.Call) and callee_name(s.value) in PUSH_CALLS:
                 kind = f"push {norm(s.value.func, 30)}"
@@ -200,6 +201,8 @@ def run(prog: Program, rep, tier="quick"):
                       "timestamp-tainted test")
     rep.rule("R13.2", "walk.py: timestamp-tainted terminations only under an exempt option test (since/until/exclusion); "
                       "_topo_reorder reads no timestamp")
+    rep.rule("R13.9", "exclusion propagation in the walker is complete: every parent of an excluded commit is excluded")
+    rep.rule("R13.8", "MONOTONE FLAGS: every store to the flag map of _find_lcas accumulates (`old | new`) unless it is the first store")
     rep.rule("R13.6", "walk.py has one source of ancestry: the walker's get_parents (no direct .parents, helpers get the caller's function)")
     rep.rule("R13.5", "the redundancy filter's ancestor walk is complete: only visited parents are not pushed")
     rep.rule("R13.3", "merge-base candidates pass a redundancy filter when there is more than one; commit-graph extra-edge list is "
@@ -315,6 +318,82 @@ def run(prog: Program, rep, tier="quick"):
                    loop.lineno)
     if n5 < 1 and filters:
         raise AnalysisError("no worklist loop found in the redundancy filter")
+    # R13.8 MONOTONE FLAGS: the per-commit flag words of _find_lcas only ever grow.  Every store `cstates[K] = V` is an
+    # accumulation (V = <current value of cstates[K]> | ...), except a store that no other store can precede (the map is
+    # still empty there).  An overwrite loses the "ancestor of c1" flag of a commit that is also one of the c2s.
+    from sa.flow import reaching_defs
+    g8 = cfg_of(prog, fl)
+    rd8 = reaching_defs(g8)
+    stores8 = [(i, n.ast) for i, n in g8.nodes.items() if n.kind == "stmt" and isinstance(n.ast, (ast.Assign, ast.AugAssign))
+               and isinstance((n.ast.targets[0] if isinstance(n.ast, ast.Assign) else n.ast.target), ast.Subscript)
+               and norm((n.ast.targets[0] if isinstance(n.ast, ast.Assign) else n.ast.target).value) == "cstates"]
+    if len(stores8) < 3:
+        raise AnalysisError(f"_find_lcas: expected >= 3 stores to cstates[...], found {len(stores8)}")
+
+    def _cur_of(e, key, at):
+        """e denotes the current flag word of `key`."""
+        if isinstance(e, ast.Subscript) and norm(e.value) == "cstates" and norm(e.slice) == key:
+            return True
+        if isinstance(e, ast.Call) and norm(e.func) == "cstates.get" and e.args and norm(e.args[0]) == key:
+            return True
+        if isinstance(e, ast.Name):
+            defs = [g8.nodes[d] for d in rd8[at].get(e.id, ())]
+            return bool(defs) and all(dn.kind == "stmt" and isinstance(dn.ast, ast.Assign) and _cur_of_val(dn.ast.value, key) for dn in defs)
+        return False
+
+    def _cur_of_val(v, key):
+        # the value itself, or the value masked / or-ed with constants (still carries every flag that is kept on purpose)
+        if isinstance(v, ast.Subscript) and norm(v.value) == "cstates" and norm(v.slice) == key:
+            return True
+        if isinstance(v, ast.Call) and norm(v.func) == "cstates.get" and v.args and norm(v.args[0]) == key:
+            return True
+        return False
+    for i8, a8 in stores8:
+        tgt = a8.targets[0] if isinstance(a8, ast.Assign) else a8.target
+        key = norm(tgt.slice)
+        if isinstance(a8, ast.AugAssign):
+            acc = isinstance(a8.op, ast.BitOr)
+        else:
+            ops = []
+            def flat(e):
+                if isinstance(e, ast.BinOp) and isinstance(e.op, ast.BitOr):
+                    flat(e.left)
+                    flat(e.right)
+                else:
+                    ops.append(e)
+            flat(a8.value)
+            acc = len(ops) >= 2 and any(_cur_of(o, key, i8) for o in ops)
+        others = [j for j, _ in stores8 if j != i8]
+        first = not any(i8 in reach(g8, [b for b, l in g8.succ[j] if l not in ("exc", "raise")], include_srcs=True) for j in others)
+        rep.ob("R13.8", "dulwich/graph.py", "_find_lcas", f"`{norm(a8, 60)}` keeps the flags the commit already has", acc or first,
+               "the flag word is overwritten: a commit that is both c1 (or an ancestor of it) and one of the c2s loses its first flag and is "
+               "never recognised as a common ancestor (find_octopus_base with a head that equals the accumulated base returns [])", a8.lineno)
+    # R13.9 exclusion propagation is complete: in _exclude_parents every parent of an excluded commit becomes excluded - the
+    # per-parent loop has no `break`, and each iteration passes `<excluded>.add(parent)` unless the parent is excluded already
+    wmm = prog.module("dulwich/walk.py")
+    ep = wmm.funcs.get("_CommitTimeQueue._exclude_parents")
+    if ep is None:
+        raise AnalysisError("_CommitTimeQueue._exclude_parents not found")
+    g9 = cfg_of(prog, ep)
+    ploops = [lp for lp in ast.walk(ep.node) if isinstance(lp, ast.For) and isinstance(lp.target, ast.Name) and isinstance(lp.iter, ast.Call)
+              and "parents" in norm(lp.iter.func)]
+    if not ploops:
+        raise AnalysisError("_exclude_parents: loop over the parents not found")
+    for lp in ploops:
+        v9 = lp.target.id
+        brk = [x for x in ast.walk(lp) if isinstance(x, ast.Break)]
+        adds = [i for i, n in g9.nodes.items() for c in node_calls(n) if isinstance(c.func, ast.Attribute) and c.func.attr == "add" and c.args
+                and isinstance(c.args[0], ast.Name) and c.args[0].id == v9 and "exclud" in norm(c.func.value)]
+        sets9 = {norm(c.func.value) for i in adds for c in node_calls(g9.nodes[i]) if isinstance(c.func, ast.Attribute) and c.func.attr == "add"}
+        already = {i for i, n in g9.nodes.items() if n.kind == "test" and isinstance(n.ast, ast.Compare) and len(n.ast.ops) == 1
+                   and isinstance(n.ast.ops[0], ast.In) and isinstance(n.ast.left, ast.Name) and n.ast.left.id == v9 and norm(n.ast.comparators[0]) in sets9}
+        heads9 = [i for i, n in g9.nodes.items() if n.kind == "for_iter" and n.ast is lp]
+        first9 = g9.nodes_of(lp.body[0])
+        bad9 = must_pass(g9, heads9, set(adds), start=first9, edge_ok=lambda a, b, l: not (a in already and l == "true")) if adds else heads9
+        rep.ob("R13.9", wmm.rel, ep.qual, f"every parent `{v9}` of an excluded commit is marked excluded (no break, add on every iteration)",
+               bool(adds) and not brk and not bad9,
+               ("a `break` leaves the loop over the parents: the parents listed after it are never excluded" if brk else
+                "an iteration can end without marking the parent excluded") + ": commits reachable only from an excluded commit are yielded", lp.lineno)
     # R13.6 one source of ancestry in walk.py: the walker's get_parents (which knows grafts, shallow boundaries and the
     # commit-graph).  `.parents` of a commit object is read only in the default of a get_parents parameter, and a helper
     # that takes a get_parents parameter is always handed the caller's function, never left to its default.
